@@ -8,6 +8,7 @@ MUTANTS = {
     "touched": "C40_UsedCopyKept",
     "dirty": "C40_DirtyRemovesNothing",
     "failed": "C40_FailedRemovesNothing",
+    "next_update": "C40_UnexpiredPointKept",
 }
 PROBES = {
     "point": "Probe_NoPointRemoved",
@@ -34,7 +35,7 @@ def _run(ctx):
     # 2. the invariants have teeth (seeded faults are rejected) and the model is not vacuous (cleanup does remove)
     #    (quick: three faults and two probes, thorough: all)
     for m, inv in MUTANTS.items():
-        if th or m in ("expiry", "retain", "failed"):
+        if th or m in ("expiry", "retain", "failed", "next_update"):
             _must_reject(ctx, "mc_cleanup_mut_" + m, "MC_Cleanup_mut_%s.cfg" % m, inv)
     for m, inv in PROBES.items():
         if th or m in ("point", "copy"):
@@ -86,6 +87,8 @@ def _run(ctx):
         "the state of the cache before cleanup is observed on a twin: the same run with the dirty option on a clone of the cache",
         "a publication point 'expires' through a manifest EE certificate valid for 3 seconds and a real wait; histories in "
         "which the machine was too slow for that are abandoned (counted in notes.histories_abandoned_too_slow)",
+        "all runs accept stale objects; in every third history every CA manifest is issued with a nextUpdate that has already "
+        "passed while its EE certificate is valid as the history says (retain reads the certificate only)",
         "RRDP transport is modelled (MC_Cleanup_rrdp_thorough.cfg) but not replayed: CA certificates with rpkiNotify are "
         "replayed with RRDP disabled (stored under stored/rrdp, fetched by rsync)",
         "hook H8 (sort-manifest-entries) and H10 (in-process rsync) are on; a failed run is a truncated stored TA point "
